@@ -328,14 +328,14 @@ func C08() *check.Property {
 		Title:    "Backpressure: Next returns after downstream is done; queues are bounded FIFO",
 		Patterns: cat(CorePatterns, PluginPkgs, IOPluginPkgs, []string{PromPkg}, RatePkgs),
 		Scope:    append([]string{ro}, IOPluginPkgs...),
-		Rules:    []check.Rule{ruleSyncEmission(), ruleBoundedQueue(), ruleLockRegion(), ruleCoreDelivers(), ruleNoDowngrade(), ruleIncorporateBeforeDecide()},
+		Rules:    []check.Rule{ruleSyncEmission(), ruleBoundedQueue(), ruleLockRegion(), ruleCoreDelivers(), ruleNoDowngrade(), ruleIncorporateBeforeDecide(), ruleNoTryLockSkip()},
 		Explanation: "Static who-may-use check of asynchrony constructs. From the model of every subscribe closure: a value emission whose context has a goroutine or timer-callback ancestor, or an upstream slot that sends into a channel, is allowed only in creation operators " +
 			"(no upstream) and in the documented hand-off/time-shift operators; everywhere else the emission provably runs inside the upstream's callback, i.e. on the producer's goroutine before its Next returns. For detachOn/ToChannel the queue is one channel whose capacity " +
 			"operand is the size parameter, all three slots go through it, terminal notifications are queued before the close, the consumer ranges over it and the notification dispatcher maps kind k to callback k. The blocking (not dropping) producer lock is checked by LOCK-REGION.",
 		NotDecided:  "the numeric bound 'capacity + 1' at run time (follows from Go channel semantics given the premises); Delay's queue, which is unbounded by its own TODO and not in the property's list of bounded hand-offs.",
 		Assumptions: []string{"Go channel semantics (FIFO, capacity)", "user callbacks do not start goroutines themselves"},
 		Floors:      map[string]int{"operators_with_upstream": 100, "delivering_methods": 3},
-		Controls:    map[string]string{"zz_verif_controls_c08.go": roControl(controlsC08), "zz_verif_controls_c02.go": roControl(controlsC02)},
+		Controls:    map[string]string{"zz_verif_controls_c08.go": roControl(controlsC08), "zz_verif_controls_c02.go": roControl(controlsC02), "zz_verif_controls_c05c.go": roControl(controlsC05c)},
 	}
 }
 
